@@ -38,7 +38,11 @@ Record req := { r_method : bytes; r_minor : Z; r_fields : fields; r_framing : rf
 Inductive read_result :=
 | REof                                  (* no byte left: the loop ends silently *)
 | RBad                                  (* malformed: "400 Bad Request", close *)
+| RUriTooLong                           (* request target longer than MaxHeaderUriBytes: "414", close *)
 | ROk (r : req) (rest : bytes).
+(* MaxHeaderUriBytes of the harness configuration (bfe.conf ships 8192) *)
+Definition max_uri : Z := 256.
+Definition s_uri_too_long : bytes := Eval compute in bs "HTTP/1.1 414 Request-URI Too Long" ++ [13;10;13;10].
 Definition target_ok (t : bytes) : bool :=
   match t with [] => false | _ => forallb (fun b => (33 <=? b) && negb (b =? 127)) t end.
 Definition read_request (s : bytes) : read_result :=
@@ -50,7 +54,8 @@ Definition read_request (s : bytes) : read_result :=
     | Some (rl, r1) =>
       match split_byte 32 rl with
       | [m; t; v] =>
-        if is_token m && target_ok t && (bytes_eqb v s_http11 || bytes_eqb v s_http10) then
+        if is_token m && (max_uri <? blen t) then RUriTooLong
+        else if is_token m && target_ok t && (bytes_eqb v s_http11 || bytes_eqb v s_http10) then
           match strict_fields (S (length r1)) r1 [] with
           | None => RBad
           | Some (fs, rest) =>
@@ -157,7 +162,7 @@ Definition serve_one (scripts : list script) (r : req) (body_err : bool) : optio
         let '(h, ps, e) := backend_view (q_head q) (h_status sc) (h_hdrs sc ++ [echo]) 0 (blen (concat (h_pieces sc))) (h_pieces sc) false in
         let '(out, close, _) := respond' q rb true (h_status sc) h ps e in Some (pre ++ out, close)
       else
-        let '(out, close, _) := respond' q rb false (h_status sc) (h_hdrs sc ++ [echo]) (h_pieces sc) (h_err sc) in
+        let '(out, close, _) := respond' q rb false (h_status sc) (eff_hdrs (h_hdrs sc ++ [echo])) (h_pieces sc) (h_err sc) in
         Some (pre ++ out, close)
     end.
 
@@ -170,6 +175,7 @@ Fixpoint serve (fuel : nat) (scripts : list script) (s : bytes) : option bytes :
     match read_request s with
     | REof => Some []
     | RBad => Some s_bad_request
+    | RUriTooLong => Some s_uri_too_long
     | ROk r rest =>
       match serve_one scripts r (negb (snd (body_end (r_framing r) rest))) with
       | None => None
